@@ -11,9 +11,9 @@ A6 = "A6 sympy polys.fields normal form, z3 5.1 and cvc5 1.4 are trusted; every 
 A7 = "A7 engine S is bounded in shape (degree, number of distinct interior knots, number of nodes); the bound of this run is in coverage.bounds"
 A8 = ("A8 the weight function sum_i w_i N_i(u) of a rational curve has no zero (precondition stated by the property); a division by exactly that "
       "expression (times a factor decided non-zero) is assumed safe, every other division is checked")
-A10 = ("A10 in the engine-V proofs of callers (KnotVector facades, generators, ImmutableKnotVector.__add__/__sub__) the constructor ImmutableKnotVector(seq) is "
-       "used by its contract 'returns a well-formed instance with these elements, or raises ValueError' ; its own body (__is_valid / __new__) is checked "
-       "exhaustively over all vectors up to a length bound (engine B) and per symbolic shape (engine S) in C03, not proved for all lengths")
+A10 = ("A10 assumed contracts inside the engine-V proof of the constructor: tuple.count on a SORTED tuple describes one contiguous block (sortedness is an "
+       "obligation at the call site); ImmutableKnotVector.__get_unique returns the strictly increasing distinct values under A3 (checked per shape by engine S); "
+       "callers use the constructor by its proved contract (heavy.ImmutableKnotVector.__new__)")
 S_COMMON = [A1, A2, A3, A5, A6, A7, A8]
 TRUSTED = ["CPython 3.12", "numpy 2.5 object-dtype loops", "fractions.Fraction", "sympy 1.14 polys.fields", "z3-solver 5.1.0", "cvc5 1.4.0",
            "vlib/spec.py (Cox-de Boor spec, written from the definition)"]
